@@ -69,6 +69,18 @@ def _pure(case, viol, stats):
         stats["pure_values"] += 1
         if exp.hex() != e["out"]:
             bad("exported_secret", exp, e["out"])
+    t = case.get("transcript")
+    if t is not None:
+        if t["confirmed"] is None:
+            stats["pure_transcript_probe_none"] += 1
+        else:
+            confirmed, interim = kdfref.transcript_hashes_after_commit(suite, H(t["interim_prev"]), H(t["ac"]))
+            stats["pure_values"] += 2
+            stats["pure_transcript_wire_format_%d" % t["wire_format"]] += 1
+            if confirmed.hex() != t["confirmed"]:
+                bad("confirmed_transcript_hash_wire_format_%d" % t["wire_format"], confirmed, t["confirmed"])
+            if interim.hex() != t["interim"]:
+                bad("interim_transcript_hash_wire_format_%d" % t["wire_format"], interim, t["interim"])
     x = case["expand"]
     if x["expanded"] is not None:
         exp = kdfref.expand_with_label(suite, H(x["secret"]), H(x["label"]), H(x["context"]), x["len"])
